@@ -2,6 +2,9 @@
 #include <occa/internal/modes/serial/device.hpp>
 #include <occa/internal/modes/serial/memory.hpp>
 #include <occa/internal/modes/serial/memoryPool.hpp>
+#ifdef LIBOCCA_OCCA_VERIF
+#include <occa/internal/verif.hpp>
+#endif
 
 namespace occa {
 
@@ -11,10 +14,16 @@ namespace occa {
     alignment(128),
     reserved(0),
     buffer(nullptr) {
+#ifdef LIBOCCA_OCCA_VERIF
+    verif::liveAdd(verif::clsMemoryPool, 1);
+#endif
     verbose = properties_.get("verbose", false);
   }
 
   modeMemoryPool_t::~modeMemoryPool_t() {
+#ifdef LIBOCCA_OCCA_VERIF
+    verif::liveAdd(verif::clsMemoryPool, -1);
+#endif
     // NULL all wrappers
     while (memoryPoolRing.head) {
       memoryPool *memPool = (memoryPool*) memoryPoolRing.head;
